@@ -26,7 +26,7 @@ CHECKS["C03"] = dict(
     engine="vsched",
     category="model_checking",
     technique="stateless model checking of the implementation under a controlled scheduler with virtual time; deviation-bounded DFS where 'a timer fires early' is a deviation; narrow ackHandler harness explored unbounded",
-    text="Reply/timer races are enumerated instead of sampled: the real ackHandler against its timeout goroutine (all interleavings), sio.Server over a harness-implemented eio socket whose protocol-level client answers with right/duplicate/unknown ack ids, text and binary ACKs, before/at/after the timeout, with the connection cut mid-flight and 1-3 acks outstanding, and the Go client offline (0-3 attachments buffered, then connect and emit again) and online over an in-process polling link. Each scenario runs with an exact virtual clock (the winner is then determined) and with early-timer deviations (any instruction may take arbitrarily long; exactly-once and reply content are judged). Oracle: invocation count and arguments of every user callback, no frame of a timed-out packet sent, socket usable afterwards, no mutex held, no deadlock.",
+    text="Reply/timer races are enumerated instead of sampled: the real ackHandler against its timeout goroutine (all interleavings), sio.Server over a harness-implemented eio socket whose protocol-level client answers with right/duplicate/unknown ack ids, text and binary ACKs, before/at/after the timeout, a late acknowledgement of a previous session of the same client arriving on its new session, with the connection cut mid-flight and 1-3 acks outstanding, and the Go client offline (0-3 attachments buffered, then connect and emit again) and online over an in-process polling link. Each scenario runs with an exact virtual clock (the winner is then determined) and with early-timer deviations (any instruction may take arbitrarily long; exactly-once and reply content are judged). Oracle: invocation count and arguments of every user callback, no frame of a timed-out packet sent, socket usable afterwards, no mutex held, no deadlock.",
     note="Trusted: vsched semantics and virtual clock; in-process RoundTripper for TCP; scope: <=3 acks outstanding, deviation bound 1 (quick) / 2 (thorough) for whole-stack scenarios.",
     design="3/C03")
 
@@ -109,7 +109,7 @@ CHECKS["C08"] = dict(
     engine="vsched",
     category="model_checking",
     technique="bounded exhaustive enumeration of broadcast histories x disconnect points x reconnection times on the real session-aware adapter in virtual time (controlled scheduler), against a reference log model with a three-valued expectation; plus server-level and Go-client replays",
-    text="Adapter level: every history of length <= 3 (quick) / <= 4 + text-only 5 (thorough) over 20 emit kinds (to all / room / room except room / except the session / direct / other sid / with ack id / the session's own To(room) (in the target room and excluded) / two rooms except the other session, text and binary) x both orders of the persisted session's room list, 10 s or 35 s apart, every disconnect point k, reconnection 1/59/61/119/121/181 s after the disconnect (0-2 passes of the production 60 s cleaner, both sides of the 120 s window), two sessions recovering from the same log. Expectation: must recover / must not / may either (offset packet itself older than the window); oracle: recovered => persisted sid and rooms and exactly the model's missed packets in order, no duplicate, no gap. Server level over harness-implemented Engine.IO sockets: same sid/pid, replayed frames decode to exactly the missed events with byte-identical attachments, unknown pid/offset or expiry => fresh session. Go client over the in-process link: Recovered() and exactly the missed events once, arguments intact, for six handler signatures.",
+    text="Adapter level: every history of length <= 3 (quick) / <= 4 + text-only 5 (thorough) over 20 emit kinds (to all / room / room except room / except the session / direct / other sid / with ack id / the session's own To(room) (in the target room and excluded) / two rooms except the other session, text and binary) x both orders of the persisted session's room list, 10 s or 35 s apart, every disconnect point k, reconnection 1/59/61/119/121/181 s after the disconnect (0-2 passes of the production 60 s cleaner, both sides of the 120 s window), two sessions recovering from the same log. Expectation: must recover / must not / may either (offset packet itself older than the window); oracle: recovered => persisted sid and rooms and exactly the model's missed packets in order, no duplicate, no gap. Server level over harness-implemented Engine.IO sockets (incl. two outages in a row of 1/61/119 s and 59/61/119 s, whose sum exceeds the window while each stays inside it: the window counts from the latest disconnection): same sid/pid, replayed frames decode to exactly the missed events with byte-identical attachments, unknown pid/offset or expiry => fresh session. Go client over the in-process link: Recovered() and exactly the missed events once, arguments intact, for six handler signatures.",
     note="Trusted: reference log model (packets with an ack id are not logged, as in the reference implementation); vsched virtual clock. Never alarms in the may-either zone.",
     design="3/C08")
 CHECKS["C13"] = dict(
